@@ -517,6 +517,25 @@ def _register_int_cells():
                         faulty=faulty, fresh=lambda: holder.get("f"), sig={"strategy": strat})
         cell("reduce/window_length_" + m, "malformed_window_step_sp", "entry_forecaster")(reduce_window)
 
+        def reduce_step(ctx, m=m):
+            # the reducer classes constructed directly (make_reduction only passes the default)
+            from sktime.forecasting.compose import (
+                DirectTabularRegressionForecaster, MultioutputTabularRegressionForecaster,
+                RecursiveTabularRegressionForecaster)
+            cls = ctx.rng.choice([DirectTabularRegressionForecaster, MultioutputTabularRegressionForecaster,
+                                  RecursiveTabularRegressionForecaster])
+            bad = malform_int(m, 1)
+            holder = {}
+
+            def faulty():
+                holder["f"] = cls(peers.StubRegressor(), window_length=3, step_length=bad)
+                return holder["f"].fit(ctx.y_train, fh=list(ctx.steps)).predict()
+            return dict(control=lambda: cls(peers.StubRegressor(), window_length=3, step_length=1).fit(
+                ctx.y_train, fh=list(ctx.steps)).predict(),
+                faulty=faulty, fresh=lambda: holder.get("f"), sig={"class": cls.__name__})
+        if m != "bool":  # (True == 1, the valid default)
+            cell("reduce/step_length_" + m, "malformed_window_step_sp", "entry_forecaster")(reduce_step)
+
         def theta_sp(ctx, m=m):
             from sktime.forecasting.theta import ThetaForecaster
             bad = malform_int(m, 2)
@@ -552,6 +571,20 @@ def _register_int_cells():
                     faulty=lambda: list(bad().split(ctx.y_train)),
                     sig={"splitter": t, "start_with_window": not extra})
     cell("split/window_does_not_fit", "window_does_not_fit", "entry_splitter")(split_oversize)
+
+    def initial_oversize(ctx):
+        # the regular window fits, the initial window does not
+        from sktime.forecasting.model_selection import SlidingWindowSplitter
+        n = len(ctx.y_train)
+        hmax = max(ctx.steps)
+        w = ctx.rng.choice([3, 4])
+        good = lambda: SlidingWindowSplitter(fh=list(ctx.steps), window_length=w,  # noqa
+                                             initial_window=n - hmax)
+        bad = lambda: SlidingWindowSplitter(fh=list(ctx.steps), window_length=w,  # noqa
+                                            initial_window=n - hmax + ctx.rng.choice([1, 3]))
+        return dict(control=lambda: list(good().split(ctx.y_train)),
+                    faulty=lambda: list(bad().split(ctx.y_train)), sig={"splitter": "sliding_initial"})
+    cell("split/initial_window_does_not_fit", "window_does_not_fit", "entry_splitter")(initial_oversize)
 
     def cutoff_beyond(ctx):
         n = len(ctx.y_train)
